@@ -57,9 +57,9 @@ func c08Legal(sc c08Scenario) [][]string {
 
 func c08Alphabet(sc c08Scenario) []string {
 	if sc.Client {
-		return []string{"SH", "Cert", "SKX", "CR", "SHD", "CCS", "Fin", "W", "A", "xCH", "xCKE", "xCV"}
+		return []string{"SH", "Cert", "SKX", "CR", "SHD", "CCS", "Fin", "W", "A", "A0", "xCH", "xCKE", "xCV"}
 	}
-	a := []string{"Cert", "CKE", "CV", "CCS", "Fin", "W", "A", "xSH", "xSKX", "xCR", "xSHD"}
+	a := []string{"Cert", "CKE", "CV", "CCS", "Fin", "W", "A", "A0", "xSH", "xSKX", "xCR", "xSHD"}
 	if vfStack != "dtlcp" {
 		// a datagram server treats a ClientHello that arrives while it waits for the client's flight
 		// as a retransmission and answers by retransmitting its own flight (that is C19's business)
@@ -337,6 +337,8 @@ func c08ServerPeer(pc *Conn, c c08Case, w *c08World, p *vfPKI) error {
 				err = vfPeerAlert(pc, 1, 90)
 			case "A":
 				err = sp.SendAppData([]byte("early"))
+			case "A0": // an application-data record without payload
+				err = vfPeerEmptyRecord(pc, recordTypeApplicationData)
 			}
 		}
 		if err != nil {
@@ -466,6 +468,8 @@ func c08ClientPeer(pc *Conn, c c08Case, w *c08World, p *vfPKI) error {
 				err = vfPeerAlert(pc, 1, 90)
 			case "A":
 				err = cp.SendAppData([]byte("early"))
+			case "A0":
+				err = vfPeerEmptyRecord(pc, recordTypeApplicationData)
 			}
 		}
 		if err != nil {
